@@ -13,6 +13,7 @@ THEOREMS = [
     "MC.ainv_validate",
     "MC.ainv_trial_of",
     "MC.forces_history",
+    "MC.forces_history_grand",
     "MC.forces_stale_when_aliased",
     "MC.energy_history",
     "MC.energy_history_grand",
